@@ -179,6 +179,13 @@ func genInit(r RepSpec) ([]byte, uint32, error) {
 		return nil, 0, fmt.Errorf("%s: unexpected init structure", src)
 	}
 	in.Moov.Trak.Mdia.Mdhd.Timescale = r.Timescale
+	if r.Kind == "audio" && r.Timescale <= 0xffff {
+		for _, c := range in.Moov.Trak.Mdia.Minf.Stbl.Stsd.Children {
+			if ase, ok := c.(*mp4.AudioSampleEntryBox); ok {
+				ase.SampleRate = uint16(r.Timescale)
+			}
+		}
+	}
 	trex := in.Moov.Mvex.Trex
 	switch {
 	case r.DurMode == "trex":
@@ -391,6 +398,18 @@ type GenOpts struct {
 	// Addressing "number" | "time" | "" (draw); Audio "none" | "" (draw).
 	Addressing string
 	Audio      string
+	// AudioRates: sample rates (= audio timescales) to draw from. Empty = 48000 only (and no
+	// extra random draw, so specs drawn with the old options stay the same). Rates other than
+	// 48000 always use AAC-like 1024-sample frames.
+	AudioRates []uint32
+	// AudioDurModes: if set, the audio representation's DurMode is drawn from it ("" = trun,
+	// "tfhd", "trex"). Note: livesim2 answers 500 to every MPD of an asset whose audio has no
+	// default sample duration anywhere and is not 48 kHz AAC / AC-3 (trun placement, other rate).
+	AudioDurModes []string
+	// GapIn (class "gap" only): "" = the hole is in the primary (and second video)
+	// representation; "audio" = the hole is in the audio representation only (audio is then
+	// always present and on the video grid); "any" = one of the two is drawn.
+	GapIn string
 }
 
 type rate struct{ ts, fd uint32 }
@@ -554,7 +573,14 @@ func RandomAssetSpec(rng *core.Rng, o GenOpts) AssetSpec {
 		primKind, primCodec, primID = "audio", "mp4a", "A1"
 	}
 	p := RepSpec{ID: primID, Kind: primKind, Codec: primCodec, Timescale: prim.ts, FrameDur: prim.fd, SegFrames: segs, DurMode: durMode()}
-	if o.Class == "gap" {
+	gapIn := o.GapIn
+	if o.Class == "gap" && gapIn == "any" {
+		gapIn = core.Pick(rng, []string{"", "audio"})
+	}
+	if audioOnly {
+		gapIn = "" // the only representation takes the hole
+	}
+	if o.Class == "gap" && gapIn != "audio" {
 		p.GapAfter = rng.Range(1, nseg-1)
 		// a hole of whole milliseconds, so that only the hole distinguishes the asset
 		p.GapTicks = uint64(q) * uint64(prim.fd) * uint64(rng.Range(1, 3))
@@ -589,14 +615,22 @@ func RandomAssetSpec(rng *core.Rng, o GenOpts) AssetSpec {
 
 	// audio
 	a.AudioLoop, a.AudioGrid = "none", ""
-	if !audioOnly && o.Audio != "none" && rng.Chance(0.75) {
+	audioGap := o.Class == "gap" && gapIn == "audio" && !audioOnly
+	if !audioOnly && o.Audio != "none" && (rng.Chance(0.75) || audioGap) {
 		fr := uint64(1024)
 		codec := "mp4a"
 		if rng.Chance(0.3) {
 			fr, codec = 1536, "ac-3"
 		}
+		arate := uint64(48000)
+		if len(o.AudioRates) > 0 {
+			arate = uint64(core.Pick(rng, o.AudioRates))
+			if arate != 48000 {
+				fr, codec = 1024, "mp4a"
+			}
+		}
 		grid := func(x uint64) uint64 { // first audio frame index at or after video time x
-			num := x * 48000
+			num := x * arate
 			den := uint64(prim.ts) * fr
 			return (num + den - 1) / den
 		}
@@ -611,6 +645,9 @@ func RandomAssetSpec(rng *core.Rng, o GenOpts) AssetSpec {
 			delta = rng.Range(1, 3)
 		}
 		a.AudioGrid = core.Pick(rng, []string{"video", "video", "own"})
+		if audioGap {
+			a.AudioGrid = "video"
+		}
 		var af []int
 		if a.AudioGrid == "video" {
 			prev := uint64(0)
@@ -641,7 +678,15 @@ func RandomAssetSpec(rng *core.Rng, o GenOpts) AssetSpec {
 			}
 		}
 		if ok {
-			a.Reps = append(a.Reps, RepSpec{ID: "A1", Kind: "audio", Codec: codec, Timescale: 48000, FrameDur: uint32(fr), SegFrames: af, DurMode: durMode()})
+			ar := RepSpec{ID: "A1", Kind: "audio", Codec: codec, Timescale: uint32(arate), FrameDur: uint32(fr), SegFrames: af, DurMode: durMode()}
+			if len(o.AudioDurModes) > 0 {
+				ar.DurMode = core.Pick(rng, o.AudioDurModes)
+			}
+			if audioGap && len(af) >= 2 {
+				ar.GapAfter = rng.Range(1, len(af)-1)
+				ar.GapTicks = fr * uint64(rng.Range(1, 40))
+			}
+			a.Reps = append(a.Reps, ar)
 		} else {
 			a.AudioLoop, a.AudioGrid = "none", ""
 		}
@@ -673,6 +718,22 @@ func (a AssetSpec) Traits() map[string]string {
 	}
 	if t["audioloop"] == "" {
 		t["audioloop"] = "none"
+	}
+	t["gapin"] = "none"
+	for _, r := range a.Reps {
+		if r.GapAfter > 0 {
+			if t["gapin"] == "none" || t["gapin"] == r.Kind {
+				t["gapin"] = r.Kind
+			} else {
+				t["gapin"] = "both"
+			}
+		}
+		if r.Kind == "audio" {
+			t["audiorate"] = "48000"
+			if r.Timescale != 48000 {
+				t["audiorate"] = "other"
+			}
+		}
 	}
 	return t
 }
